@@ -325,6 +325,18 @@ def save_check(kind, case, rec):
             if "Cauchy Stress" in mm.point_data:
                 got = np.asarray(mm.point_data["Cauchy Stress"])
                 rec.close("cauchy-stress-point-data", float(np.abs(got.reshape(len(ref), -1) - ref.reshape(len(ref), -1)).max()) if got.size == ref.size else float("inf"), 1e-14)
+            # principal values (ascending eigenvalues of the quadrature-point stress, shifted to the points) and the
+            # largest principal shear = max - min
+            spq = np.linalg.eigvalsh(0.5 * (sig + sig.transpose(1, 0, 2, 3)).transpose(2, 3, 0, 1)).transpose(2, 0, 1)
+            pref = np.asarray(fem.topoints(spq, region))
+            nd = pref.shape[1]
+            sscale = max(float(np.abs(pref).max()), 1e-12)
+            for nm, ref1 in (("Max. Principal", pref[:, nd - 1]), ("Int. Principal", pref[:, 1]), ("Min. Principal", pref[:, 0]),
+                             ("Max. Principal Shear", pref[:, nd - 1] - pref[:, 0])):
+                key = f"Cauchy Stress ({nm})"
+                if key in mm.point_data:
+                    got = np.asarray(mm.point_data[key]).ravel()
+                    rec.close("principal-stress-point-data:" + nm, float(np.abs(got - ref1).max()) / sscale if got.shape == ref1.shape else float("inf"), 1e-10)
         expected_keys = {"Displacements"} | ({"Reaction Force"} if forces is not None else set())
         if gradient is not None:
             expected_keys |= {"Cauchy Stress", "Cauchy Stress (Max. Principal)", "Cauchy Stress (Int. Principal)", "Cauchy Stress (Min. Principal)", "Cauchy Stress (Max. Principal Shear)"}
